@@ -194,7 +194,7 @@ def r3(F, R):
         # suspends (yield / await) does so only after the *last* emitted_logs() of that row returned None (or there is no
         # collector); a row that got Some(logs) hands exactly those logs to the sending routine
         EL = r"Collector::emitted_logs$"
-        send_fns = [F.callee_body(t3) for s3, t3 in fb.calls() if F.callee_body(t3) is not None and any(True for _ in roles.sends(F, [F.callee_body(t3)]))]
+        send_fns = [F.callee_body(t3) for s3, t3 in fb.calls() if F.callee_body(t3) is not None and roles.reaches_send(F, F.callee_body(t3))]
         send_rx = "|".join(re.escape(x.name.rsplit("::", 1)[-1]) + "$" for x in send_fns) or "$^"
         rows = D.Deep(F, fb, opaque=EL + "|" + send_rx, max_paths=400).run()
         n_el = n_y = 0
